@@ -8,6 +8,8 @@ Case script (both drivers, see harness/drivers/c12_driver.c):
 """
 import glob
 import os
+import re
+import subprocess
 import vcommon as V
 
 ID = "C12"
@@ -342,6 +344,180 @@ def ref_mode(ci, mode, encrypt, iv, data, off=0, sb=None):
             pos += len(seg)
         return bytes(out)
     raise ValueError(mode)
+
+# ---------------------------------------------------------------------------
+# parameters re-extracted from the working tree on every run -> coq/gen/Params_C12.v
+# (tables of openssl_des.c through a C program that #includes the file; PERM_OP argument lists,
+#  D_ENCRYPT lookup order, shift schedule and the bitsliced AES S-box circuits from the source text)
+
+def _cexpr_tokens(s):
+    return re.findall(r"0[xX][0-9a-fA-F]+[uUlL]*|\d+[uUlL]*|[A-Za-z_]\w*|<<|>>|[()^&|~*+\-=;]", s)
+
+class _P:
+    """C expressions over & ^ | << >> with constants and identifiers -> Bitvec.exp (C precedence)"""
+    def __init__(self, toks, width, var):
+        self.t, self.i, self.w, self.var = toks, 0, width, var
+    def peek(self): return self.t[self.i] if self.i < len(self.t) else None
+    def eat(self, x=None):
+        tok = self.peek()
+        if x is not None and tok != x: raise ValueError("expected %r got %r" % (x, tok))
+        self.i += 1; return tok
+    def expr(self): return self.p_or()
+    def p_or(self):
+        a = self.p_xor()
+        while self.peek() == "|": self.eat(); a = "(Or %s %s)" % (a, self.p_xor())
+        return a
+    def p_xor(self):
+        a = self.p_and()
+        while self.peek() == "^": self.eat(); a = "(Xor %s %s)" % (a, self.p_and())
+        return a
+    def p_and(self):
+        a = self.p_shift()
+        while self.peek() == "&": self.eat(); a = "(And %s %s)" % (a, self.p_shift())
+        return a
+    def p_shift(self):
+        a = self.p_atom()
+        while self.peek() in ("<<", ">>"):
+            op = self.eat(); k = self.eat()
+            if not re.match(r"\d+$", k): raise ValueError("shift amount %r" % k)
+            a = "(Shl %d %s %s)" % (self.w, a, k) if op == "<<" else "(Shr %s %s)" % (a, k)
+        return a
+    def p_atom(self):
+        tok = self.eat()
+        if tok == "(":
+            a = self.expr(); self.eat(")"); return a
+        m = re.match(r"(0[xX][0-9a-fA-F]+|\d+)[uUlL]*$", tok)
+        if m: return "(Cst %d)" % int(m.group(1), 0)
+        if re.match(r"[A-Za-z_]\w*$", tok): return "(Var %d)" % self.var(tok)
+        raise ValueError("unexpected token %r" % tok)
+
+def translate_straightline(body, width):
+    """body of a function of the form  T x, y, ...;  x = *w;  v = e; v op= e; ... *w = x;  -> list of (var, exp)"""
+    names = {}
+    def var(n):
+        if n not in names: names[n] = len(names)
+        return names[n]
+    var("IN")                       # variable 0 = *w on entry
+    stmts = []
+    out = None
+    for st in body.split(";"):
+        st = st.strip()
+        if not st: continue
+        if re.match(r"(uint32_t|uint64_t)\s", st):
+            for n in re.sub(r"^(uint32_t|uint64_t)\s+", "", st).split(","): var(n.strip())
+            continue
+        m = re.match(r"(\w+)\s*=\s*\*\s*w$", st)
+        if m: stmts.append((var(m.group(1)), "(Var 0)")); continue
+        m = re.match(r"\*\s*w\s*=\s*(\w+)$", st)
+        if m: out = var(m.group(1)); continue
+        m = re.match(r"(\w+)\s*(\^=|&=|\|=|=)\s*(.*)$", st, re.S)
+        if not m: raise ValueError("statement not understood: %r" % st)
+        v, op, rhs = var(m.group(1)), m.group(2), m.group(3)
+        p = _P(_cexpr_tokens(rhs), width, var); e = p.expr()
+        if p.peek() is not None: raise ValueError("trailing tokens in %r" % st)
+        if op != "=":
+            e = "(%s (Var %d) %s)" % ({"^=": "Xor", "&=": "And", "|=": "Or"}[op], v, e)
+        stmts.append((v, e))
+    if out is None: raise ValueError("no *w = x")
+    return stmts, out, len(names)
+
+def function_body(src, name):
+    m = re.search(r"static\s+void\s+" + name + r"\s*\([^)]*\)\s*\{", src)
+    if not m: raise ValueError("function %s not found" % name)
+    i = m.end(); depth = 1
+    while depth:
+        if src[i] == "{": depth += 1
+        elif src[i] == "}": depth -= 1
+        i += 1
+    return re.sub(r"/\*.*?\*/", "", src[m.end():i - 1], flags=re.S)
+
+def gen_params_text(repo, gen_inc, builddir):
+    des_c = os.path.join(repo, "muggle/c/crypt/openssl/openssl_des.c")
+    aes_c = os.path.join(repo, "muggle/c/crypt/openssl/openssl_aes.c")
+    os.makedirs(builddir, exist_ok=True)
+    src = os.path.join(builddir, "c12_params.c")
+    with open(src, "w") as f:
+        f.write('#include <stdio.h>\n#include "%s"\n' % des_c)
+        f.write('int main(void){int i,j;'
+                'for(i=0;i<8;i++){for(j=0;j<64;j++)printf("%lu ",(unsigned long)openssl_des_sptrans[i][j]);printf("\\n");}'
+                'for(i=0;i<8;i++){for(j=0;j<64;j++)printf("%lu ",(unsigned long)openssl_des_skb[i][j]);printf("\\n");}'
+                'return 0;}\n')
+    exe = os.path.join(builddir, "c12_params")
+    p = subprocess.run(["gcc", "-std=gnu11", "-w", "-DNDEBUG", "-DMUGGLE_C_EXPORTS", "-I" + repo, "-I" + gen_inc, src,
+                        os.path.join(repo, "muggle/c/crypt/parity.c"), "-o", exe], capture_output=True, text=True, timeout=120)
+    if p.returncode != 0: raise RuntimeError("cannot compile the table extractor:\n" + p.stderr[-2000:])
+    out = subprocess.run([exe], capture_output=True, text=True, timeout=20).stdout.strip().split("\n")
+    rows = [[int(x) for x in ln.split()] for ln in out]
+    if len(rows) != 16 or any(len(r) != 64 for r in rows): raise RuntimeError("unexpected table shape")
+    dsrc = open(des_c).read()
+    def macro_body(name):
+        m = re.search(r"#define\s+" + name + r"\b.*?\n((?:.*\\\n)*.*\n)", dsrc)
+        if not m: raise RuntimeError("macro %s not found" % name)
+        return m.group(0)
+    def perm_ops(text):
+        ops = []
+        for m in re.finditer(r"MUGGLE_OPENSSL_DES_(H?)PERM_OP\(\s*(\w+)\s*,\s*(\w+)\s*,(?:\s*(\w+)\s*,)?\s*(-?\d+)\s*,\s*(0x[0-9a-fA-F]+)L?\s*\)", text):
+            ops.append(m.groups())
+        return ops
+    ip = perm_ops(macro_body("MUGGLE_OPENSSL_DES_IP"))
+    fp = perm_ops(macro_body("MUGGLE_OPENSSL_DES_FP"))
+    if len(ip) != 5 or len(fp) != 5: raise RuntimeError("IP/FP macro: expected 5 PERM_OPs")
+    def enc_ops(ops):     # (a is the macro's r?, n, mask)
+        return "[" + "; ".join("(%s, %d%%nat, %d)" % ("true" if a == "r" else "false", int(n), int(mk, 16)) for (h, a, b, t, n, mk) in ops) + "]"
+    sk = dsrc[dsrc.index("void muggle_openssl_des_set_key_unchecked"):]
+    sk = sk[:sk.index("d = (((d &")]
+    pc1 = perm_ops(sk)
+    def enc_pc1(ops):
+        o = []
+        for (h, a, b, t, n, mk) in ops:
+            if h:   # HPERM_OP(a, t, n, m): groups: a=var, b=t
+                o.append("inr (%s, %d%%nat, %d)" % ("true" if a == "d" else "false", 16 - int(n), int(mk, 16)))
+            else:
+                o.append("inl (%s, %d%%nat, %d)" % ("true" if a == "d" else "false", int(n), int(mk, 16)))
+        return "[" + "; ".join(o) + "]"
+    den = macro_body("MUGGLE_OPENSSL_D_ENCRYPT")
+    looks = re.findall(r"openssl_des_sptrans\[(\d)\]\[\((u|t)>>\s*(\d+)L\)&0x3f\]", den)
+    if len(looks) != 8: raise RuntimeError("D_ENCRYPT: expected 8 table lookups")
+    m = re.search(r"shifts1\[16\]\s*=\s*\{([^}]*)\}", dsrc)
+    shifts = [int(x.strip().rstrip("L")) for x in m.group(1).split(",") if x.strip()]
+    if len(shifts) != 16: raise RuntimeError("shifts1")
+    m = re.search(r"shifts2\[16\]\s*=\s*\{([^}]*)\}", dsrc)
+    shifts2 = [int(x.strip().rstrip("L")) for x in m.group(1).split(",") if x.strip()]
+    if len(shifts2) != 16: raise RuntimeError("shifts2")
+    def tab(name, rs):
+        return "Definition %s : list (list N) :=\n  [ %s ].\n" % (name, ";\n    ".join("[" + ";".join(str(v) for v in r) + "]" for r in rs))
+    txt = ["(* GENERATED by lib/props/c12.py gen_params from muggle/c/crypt/openssl/openssl_des.c and openssl_aes.c",
+           "   on every run; do not edit.  Tables are printed by a C program that #includes the .c file; the",
+           "   PERM_OP sequences, lookup order, shift schedule and the bitsliced S-box circuits are read from the source text. *)",
+           "From Coq Require Import List NArith.", "From MV Require Import C12.Bitvec.", "Import ListNotations.", "Local Open Scope N_scope.", "",
+           tab("des_sptrans", rows[:8]), tab("des_skb", rows[8:]),
+           "(* (first macro argument is r, shift n, mask m) for each PERM_OP(a,b,tt,n,m) *)",
+           "Definition des_ip_ops : list (bool * nat * N) := %s." % enc_ops(ip),
+           "Definition des_fp_ops : list (bool * nat * N) := %s." % enc_ops(fp),
+           "(* set_key: inl (a is d, n, m) = PERM_OP(a,b,t,n,m); inr (a is d, 16-n, m) = HPERM_OP(a,t,n,m) *)",
+           "Definition des_pc1_ops : list (bool * nat * N + bool * nat * N) := %s." % enc_pc1(pc1),
+           "(* D_ENCRYPT: (table, index taken from t (true) or u (false), right shift) *)",
+           "Definition des_round_lookups : list (nat * bool * nat) := [%s]." % "; ".join("(%s%%nat, %s, %s%%nat)" % (t, "true" if v == "t" else "false", s) for t, v, s in looks),
+           "Definition des_shifts1 : list nat := [%s]%%nat." % ";".join(map(str, shifts)),
+           "Definition des_shifts2 : list nat := [%s]%%nat." % ";".join(map(str, shifts2)), ""]
+    asrc = open(aes_c).read()
+    for fn, w in (("openssl_sub_u64", 64), ("openssl_inv_sub_u64", 64), ("openssl_sub_u32", 32), ("openssl_xtime_u64", 64)):
+        try:
+            stmts, outv, nv = translate_straightline(function_body(asrc, fn), w)
+        except ValueError as e:
+            if fn == "openssl_xtime_u64": continue
+            raise RuntimeError("%s: %s" % (fn, e))
+        nm = fn.replace("openssl_", "aes_")
+        txt.append("Definition %s_prog : prog :=\n  [ %s ].\nDefinition %s_out : nat := %d%%nat.\n" % (
+            nm, ";\n    ".join("(%d%%nat, %s)" % (v, e) for v, e in stmts), nm, outv))
+    return "\n".join(txt)
+
+
+
+def gen_params(ctx):
+    V.gen_config_header()
+    return gen_params_text(V.REPO, V.GEN_INC, os.path.join(V.BUILD, "C12"))
+
 
 # ---------------------------------------------------------------------------
 # script helpers
@@ -706,7 +882,8 @@ def monitor(case, lines):
                 valid = valid and len(key) >= 8 and not (set(nulls) & set("kc"))
             else:
                 valid = valid and len(key) >= 24 and not (set(nulls) & set("k23c"))
-            if (got == "setkey OK") != valid:
+            gw = got.split()
+            if ((gw[:2] == ["setkey", "OK"]) != valid) or len(gw) < 2 or gw[0] != "setkey":
                 return "set_key(%s): parameters are %s but the call returned %r" % (
                     " ".join(w[1:5]) + " nulls=" + nulls, "valid" if valid else "INVALID (must be rejected)", got)
             cipher = RefCipher(alg, key[:_KEYLEN.get(alg, len(key))]) if valid else None
@@ -827,7 +1004,8 @@ def tally(dist, case, lines):
             dist["calls_ok"] = dist.get("calls_ok", 0) + 1
             dist["bytes"] = dist.get("bytes", 0) + (len(ln.split(" ")[1]) - 4) // 2
         elif ln.startswith("setkey "):
-            dist["setkey_" + ln[7:]] = dist.get("setkey_" + ln[7:], 0) + 1
+            k2 = "setkey_" + (ln.split() + ["?"])[1]
+            dist[k2] = dist.get(k2, 0) + 1
         elif " out=" in ln:
             dist["rejected_" + ln.split(" ")[0]] = dist.get("rejected_" + ln.split(" ")[0], 0) + 1
     n = m.get("n")
@@ -850,10 +1028,20 @@ TRUSTED_BASE = [
     "SP 800-67 TDEA vectors (Examples by vm_compute) - a validated transcription, not a proof against an independent formal "
     "FIPS; (b) implementation = model by the differential run; (c) an independent plain-Python AES/DES/TDEA + SP 800-38A "
     "reference (written from the standards, cross-checked against the OpenSSL CLI during development) used as the monitor",
-    "modelled rather than verified: the internals of the block primitives that actually run (constant-time bitsliced AES in "
-    "crypt/openssl/openssl_aes.c, SP-table DES in openssl_des.c) are covered by the differential run and the monitor only; "
-    "the Coq model has the standard's algorithm in their place",
-    "little-endian host (the CTR nonce is uint64_t[] read as bytes); caller buffers do not alias",
+    "implementation layer (the code that runs, MUGGLE_CRYPT_OPTIMIZATION=1): crypt/openssl/openssl_des.c is modelled as coded "
+    "(Impl_DES.v, word-level language of Bitvec.v) and PROVED equal to the specification layer on all inputs; its tables, "
+    "PERM_OP argument lists, D_ENCRYPT lookup order and shift schedules are re-extracted from the source on every run "
+    "(coq/gen/Params_C12.v).  What is trusted there: the hand transcription of the control structure of openssl_des.c into "
+    "Impl_DES.v (macro bodies, statement order, C integer typing) - checked on every run by comparing the key schedule bytes "
+    "left in the public context structures with the model's, and by the API-level differential run - and the text extractor "
+    "of lib/props/c12.py (regular expressions over the macro bodies; a C program for the tables)",
+    "AES: the bitsliced S-box circuits openssl_sub_u64 / openssl_inv_sub_u64 / openssl_sub_u32 are translated statement by "
+    "statement from the C source on every run (small expression parser in lib/props/c12.py: trusted) and PROVED equal to "
+    "the FIPS-197 S-box on every byte lane for all inputs.  NOT modelled, covered by the differential run and the monitor "
+    "only: openssl_shift_row / inv_shift_row, openssl_mix_columns / inv_mix_columns and openssl_xtime_u64 on the packed "
+    "state, openssl_add_round_key, openssl_key_expansion (apart from its S-box), the round structure of openssl_cipher / "
+    "openssl_inv_cipher",
+    "little-endian host (uint32_t/uint64_t views of byte buffers, the CTR nonce read as bytes); caller buffers do not alias",
 ]
 ASSUMPTIONS = ["input, output and iv buffers are distinct objects (in-place CBC decryption is not part of the documented use)",
                "message lengths are lengths of buffers in memory (far below 2^32 - 16), little-endian host",
@@ -880,10 +1068,26 @@ EVIDENCE_NOTES = [
     "specification layer IS the standards' definition (tables and algorithms transcribed), checked in Coq by vm_compute against "
     "FIPS-197 App. A/B/C, SP 800-38A F.1-F.5 (through the transcribed mode loops, both directions), DES and TDEA known "
     "answers - these vectors are obligations of Properties_C12.v; there is no independent formal FIPS to prove against.",
-    "COVERED BY THE DIFFERENTIAL RUN AND THE MONITOR ONLY: that the C code computes what the model computes - in particular "
-    "the internals of the block primitives that really run (constant-time bitsliced AES and its key expansion in "
-    "crypt/openssl/openssl_aes.c; PC-1/PC-2/SP-table DES in crypt/openssl/openssl_des.c) - and memory safety of the loops "
-    "(ASan, exact-size heap buffers, aligned and misaligned).  crypt/internal/* is dead code in this configuration "
+    "IMPLEMENTATION LAYER PROVED (code that runs, all inputs): des_impl_equals_spec - muggle_openssl_des_gen_subkeys + "
+    "muggle_openssl_des_crypt as coded in crypt/openssl/openssl_des.c (C2L loads, IP/FP as PERM_OP sequences, ROTATE, sixteen "
+    "D_ENCRYPT with the eight SP tables, DES_set_key_unchecked with PC-1 by PERM_OP/HPERM_OP, 28-bit rotations, PC-2 through the "
+    "eight skb tables, the rotated two-word sub-key packing, the sub-key swap for decryption) equals FIPS 46-3 for every key and "
+    "block, both directions; des_key_schedule_impl_equals_spec, des_round_impl_equals_spec; tdes_impl_equals_spec - "
+    "muggle_openssl_tdes_crypt (IP once, three DES_encrypt2, FP once) equals the E/D/E composition of the standard; "
+    "aes_sbox_impl_equals_spec / aes_inv_sbox_impl_equals_spec / aes_subword_impl_equals_spec - the constant-time bitsliced "
+    "circuits openssl_sub_u64, openssl_inv_sub_u64, openssl_sub_u32 equal the FIPS-197 S-box / inverse S-box on every byte for "
+    "all 2^64 / 2^32 words.  Method: the C code in a deep-embedded word language (Bitvec.v); a symbolic evaluator over GF(2)-affine "
+    "forms of the input bits, proved sound, decides every bit permutation / selection (IP, FP, PC-1, rotations, E-window "
+    "extraction, linear skb tables) by computation; 512-entry sweep for the SP tables; for the AES circuits a dependency analysis "
+    "(Bitdep.v, proved sound for two runs) shows byte-lane independence, then 256 values per lane are swept.  The tables, PERM_OP "
+    "arguments, lookup order, shift schedules and the S-box circuits come from coq/gen/Params_C12.v, regenerated from the "
+    "working tree on every run: a changed table entry, mask or shift breaks these obligations (as well as the differential run).",
+    "COVERED BY THE DIFFERENTIAL RUN AND THE MONITOR ONLY: that the C code computes what the models compute where no "
+    "implementation-layer proof exists - AES ShiftRows / MixColumns / xtime / AddRoundKey on the packed 2 x uint64_t state, "
+    "the AES key expansion (apart from its S-box circuit) and the round loops of openssl_cipher / openssl_inv_cipher; the "
+    "hand-transcribed control structure of Impl_DES.v against openssl_des.c (additionally checked by comparing the key schedule "
+    "bytes of the public DES / 3DES context structures with the implementation-layer model on every setkey); memory safety of "
+    "the loops (ASan, exact-size heap buffers, aligned and misaligned).  crypt/internal/* is dead code in this configuration "
     "(MUGGLE_CRYPT_OPTIMIZATION=1) and is not exercised.",
     "NOT COVERED: in-place operation (input == output), for which CBC decryption of the library would use the overwritten "
     "block as the next iv - the property and the headers do not promise it; big-endian hosts; lengths >= 2^32 - 16.",
@@ -910,12 +1114,17 @@ MANIFEST = {
                    "with nothing written.  'Equals the standard' = the specification layer is the standard's definition "
                    "(validated in Coq against FIPS-197 A/B/C, SP 800-38A F.1-F.5, DES/TDEA vectors) + implementation = model "
                    "by a differential run of the extracted model against the public API compiled from the working tree under "
-                   "ASan, plus an independent plain-Python AES/DES/3DES + SP 800-38A monitor."),
+                   "ASan, plus an independent plain-Python AES/DES/3DES + SP 800-38A monitor.  Implementation layer: the DES / "
+                   "3DES code that runs (openssl_des.c: SP tables, skb tables, PERM_OP sequences, key schedule) and the bitsliced "
+                   "AES S-box circuits (openssl_aes.c), with tables and circuits re-extracted from the source on every run, are "
+                   "proved equal to the specification layer on all inputs."),
     "design_ref": "DESIGN.md section 6 / C12",
     "level_note": ("Trusted: Coq kernel (vm_compute for finite sweeps), extraction (ExtrOcamlBasic), the differential harness "
-                   "and the Python reference.  The internals of the running block primitives (bitsliced AES, SP-table DES) "
-                   "are covered by the differential run and the monitor only, not by proof."),
+                   "and the Python reference; the hand transcription of openssl_des.c's control structure and the source-text "
+                   "extractor.  AES ShiftRows/MixColumns/AddRoundKey/key expansion on the packed state and the AES round loops are "
+                   "covered by the differential run and the monitor only, not by proof."),
     "technique": ("Coq: generic mode-loop theorems by induction, AES inverse by complete finite sweeps lifted by lemmas, DES "
-                  "inverse by a generic Feistel lemma; vm_compute known-answer validation; extracted-model differential run; "
-                  "independent reference monitor"),
+                  "inverse by a generic Feistel lemma; vm_compute known-answer validation; implementation layer in a deep-embedded "
+                  "word language with verified symbolic evaluators (GF(2)-affine forms; bit dependencies) + table sweeps; "
+                  "extracted-model differential run; independent reference monitor"),
 }
